@@ -181,6 +181,73 @@ def analyse(ck, prog, name, unit, report, ck_floor=True):
             line = fn.term(bb).get("line")
             report("C14:token-without-context:%s:%s" % (base, "value" if o.get("k") == "v" else "const"), "P-context-stored", "%s:%s" % (fn.file, line),
                    "%s can return a token on a path that never stores the continuation pointer *ptr: the next call resumes from a stale context" % base)
+    # S: the scan never steps over an element it has not tested for the terminator.  In every loop that advances the string cursor, the element
+    #    at the cursor value with which an iteration starts was loaded and compared with 0 (the zero side leaving the loop) before the cursor
+    #    is incremented: either inside the iteration (`while (*dest != 0)`), or -- for a test at the bottom -- at the end of the previous
+    #    iteration *and* before the loop is entered.
+    nS = 0
+
+    def zero_tests(ptr_id):
+        """[(block of the branch, successor taken when the element is non-zero)] for loads through exactly this pointer value compared with 0"""
+        out_ = []
+        for ld in fn.insts():
+            if ld["op"] != "load" or ld["ops"][0].get("id") != ptr_id:
+                continue
+            vals = {ld["id"]}
+            for _ in range(3):
+                for u in fn.insts():
+                    if "id" in u and u["op"] in ("sext", "zext") and u["ops"][0].get("id") in vals:
+                        vals.add(u["id"])
+            for c in fn.insts():
+                if c["op"] == "icmp" and c["pred"] in ("eq", "ne") and any(o.get("id") in vals for o in c["ops"]) and any(o.get("k") == "c" and o["v"] == 0 for o in c["ops"]):
+                    for b_ in fn.j["blocks"]:
+                        t_ = b_["insts"][-1]
+                        if t_["op"] == "br" and t_.get("cond", {}).get("id") == c["id"]:
+                            out_.append((b_["id"], t_["t"] if c["pred"] == "ne" else t_["f"]))
+        return out_
+    for h, L in fn.loops.items():
+        body = L["_set"]
+        for ph in fn.blocks[h]["insts"]:
+            if ph["op"] != "phi" or not ph["ty"].endswith("*") or not labels_of({"k": "v", "id": ph["id"]}, dstr, None):
+                continue
+            steps = [x for x in ph["incoming"] if x["bb"] in body and x["v"].get("k") == "v" and fn.defs.get(x["v"]["id"], {}).get("op") == "getelementptr"
+                     and fn.defs[x["v"]["id"]]["base"].get("id") == ph["id"] and fn.defs[x["v"]["id"]].get("coff", 0) > 0]
+            if not steps:
+                continue
+            nS += 1
+            inc = fn.defs[steps[0]["v"]["id"]]
+            # (a) tested inside the iteration: a zero test of *phi that dominates the increment and whose zero side leaves the loop
+            #     (directly, or through the merge block of a short-circuit `&&` whose phi is constant on that edge)
+            def leaves(bb_, nz):
+                t_ = fn.term(bb_)
+                z = t_["f"] if t_["t"] == nz else t_["t"]
+                if z not in body:
+                    return True
+                tz = fn.term(z)
+                if tz["op"] == "br" and "cond" in tz and tz["cond"].get("k") == "v":
+                    pc = fn.defs.get(tz["cond"]["id"])
+                    if pc is not None and pc["op"] == "phi" and pc["_bb"] == z:
+                        cin = [x["v"] for x in pc["incoming"] if x["bb"] == bb_]
+                        if cin and cin[0].get("k") == "c":
+                            s2 = tz["t"] if cin[0]["v"] != 0 else tz["f"]
+                            return s2 not in body
+                return False
+            if any((fn.dominates(nz, inc["_bb"]) or (fn.dominates(bb_, inc["_bb"]) and leaves(bb_, nz))) for (bb_, nz) in zero_tests(ph["id"]) if bb_ in body):
+                continue
+            # (b) tested at the bottom (on the incremented value, back edge on the non-zero side) and before entry (on the entry value)
+            bottom = any(nz == h for (bb_, nz) in zero_tests(inc["id"]) if bb_ in body)
+            entry_ok = True
+            for x in ph["incoming"]:
+                if x["bb"] in body:
+                    continue
+                v0 = x["v"]
+                entry_ok = entry_ok and v0.get("k") == "v" and any(fn.dominates(nz, x["bb"]) or nz == x["bb"] for (bb_, nz) in zero_tests(v0["id"]))
+            if not (bottom and entry_ok):
+                report("C14:steps-over-untested-element:%s:%s" % (base, h.lstrip("%")), "S-terminator-tested-before-step", fn.loc(inc),
+                       "%s: the loop at %s advances the string cursor over an element that was not compared with the terminator first (%s): the scan can step over the "
+                       "string's own NUL and go on in whatever follows it" % (base, h, "the loop tests at the bottom and is entered at a position that was never tested" if bottom else "no terminator test of the current element precedes the step"))
+    if nS < 2 and ck_floor:
+        ck.fail_broken("%s: fewer than 2 cursor-advancing loops found (%d)" % (name, nS))
     # Q: the continuation never steps over an element this call did not overwrite with 0 (it may be the string's own terminator:
     #    resuming behind it makes later calls scan whatever follows the string)
     nQ = 0
@@ -227,7 +294,7 @@ def analyse(ck, prog, name, unit, report, ck_floor=True):
         ck.fail_broken("%s: fewer than 2 string-vs-delimiter character comparisons found (%d)" % (name, nE))
     if nT < 1 and ck_floor:
         ck.fail_broken("%s: no (*ptr, *dmaxp) continuation pair found: rule T would pass vacuously" % name)
-    return dict(bounds_obligations=nB, continuation_pairs=nT, delimiter_limit_exits=nD, stores_into_string=nZ, token_returns=nP, continuation_steps=nQ, delimiter_comparisons=nE)
+    return dict(bounds_obligations=nB, continuation_pairs=nT, delimiter_limit_exits=nD, stores_into_string=nZ, token_returns=nP, continuation_steps=nQ, delimiter_comparisons=nE, cursor_advancing_loops=nS)
 
 
 def run(ck):
